@@ -113,3 +113,62 @@ func Dump() string {
 	}
 	return sb.String()
 }
+
+// snapshot returns one line per goroutine of the code under test ("id state first-frame") and whether one of them is active
+// (running, runnable, sleeping, in a syscall, or parked on a timer of a retry loop).
+func snapshot() (lines []string, active string) {
+	buf := make([]byte, 1<<20)
+	for {
+		n := runtime.Stack(buf, true)
+		if n < len(buf) {
+			buf = buf[:n]
+			break
+		}
+		buf = make([]byte, 2*len(buf))
+	}
+	for _, g := range strings.Split(string(buf), "\n\n") {
+		m := header.FindStringSubmatch(g)
+		if m == nil || !strings.Contains(g, "github.com/zilliztech/milvus-cdc/") || strings.Contains(g, "verifharness/quiesce.") {
+			continue
+		}
+		state := m[2]
+		line := m[1] + " " + state + " " + firstCDCFrame(g)
+		lines = append(lines, line)
+		switch state {
+		case "running", "runnable", "sleep", "syscall":
+			active = line
+		default:
+			if strings.Contains(g, "util/retry.Do") || strings.Contains(g, "util/retry.Handle") || strings.Contains(g, "time.Sleep") {
+				active = line
+			}
+		}
+	}
+	return lines, active
+}
+
+// WaitStable is Wait for code that may be blocked for good: goroutines waiting for a mutex or semaphore count as at rest when
+// the complete picture (every goroutine of the code under test with its state, and the observation counter) stays identical
+// over five samples 60 ms apart and nothing is running, sleeping or retrying.
+func WaitStable(counter func() int, cap time.Duration) (string, bool) {
+	deadline := time.Now().Add(cap)
+	last, same := "", 0
+	busy := ""
+	for time.Now().Before(deadline) {
+		lines, active := snapshot()
+		cur := strings.Join(lines, "\n") + "#" + time.Duration(counter()).String()
+		if active == "" && cur == last {
+			same++
+			if same >= 5 {
+				return "", true
+			}
+		} else {
+			same = 0
+		}
+		last, busy = cur, active
+		time.Sleep(60 * time.Millisecond)
+	}
+	if busy == "" {
+		busy = "goroutine set keeps changing"
+	}
+	return busy, false
+}
